@@ -37,6 +37,8 @@ def run(chk):
     chk.ob("R04.1", "parser:escaped-is-content", bool(esc_paths) and all(r["pushes_c"] == 1 or (r["kind"] == "return" and r["ret"] == "Err") for r in esc_paths),
            "after the escape character the annotation parser does not consume every character as tag content", site=C.site(pt.body))
 
+    chk.ob("R04.1", "parser:escape-applies-to-one-character", bool(esc_paths) and all(r["bools"]["escape"][1] == absint.B(False) for r in esc_paths if r["kind"] == "backedge"),
+           "after consuming an escaped character the annotation parser can stay in the escaped state", site=C.site(pt.body))
     sites, consts = fmt.writer_sites(w, WP)
     tags = [s for s in sites if s.role == "tag"]
     chk.floor("R04.1", "tag-emitting sites", len(tags), 2)
